@@ -557,6 +557,8 @@ NEGOTIATING = 'negotiating'
 ENCRYPTING = 'encrypting'      # connect() issued, server will ask for encryption
 STATUSING = 'statusing'        # status() issued, reply not yet processed
 PLAY_MULTI = 'play_multi'      # in play, every connect() negotiates the version
+LOGGING_IN = 'logging_in'      # connect() issued, login success not yet processed
+COMPRESSING = 'compressing'    # connect() issued, server will set compression
 PROGS = {
     'connect||connect': ([('connect',)], [('connect',)]),
     'connect||disc': ([('connect',)], [('disc',)]),
@@ -606,6 +608,8 @@ def sched_body(W, start, prog):
         login = [('success',)]
         if start == ENCRYPTING and not W.servers:
             login = [('encrypt', 'srv', b'\x01\x02\x03\x04'), ('success',)]
+        if start == COMPRESSING and not W.servers:
+            login = [('compress', 64), ('success',)]
         srv = RefServer(conn, protoids.ids, W.rank, login=login,
                         rsa=harness.rsa_key(),
                         status={'json': status_json(protocol=SRV_V,
@@ -640,7 +644,7 @@ def sched_body(W, start, prog):
             conn.connect()
         except ConnectionRefusedError:
             pass
-    elif start in (NEGOTIATING, ENCRYPTING):
+    elif start in (NEGOTIATING, ENCRYPTING, LOGGING_IN, COMPRESSING):
         conn.connect()          # first packets sent, reply not yet processed
     elif start == STATUSING:
         conn.status(handle_status=lambda s: None, handle_ping=lambda ms: None)
@@ -856,6 +860,9 @@ PROGS['disc,connect'] = ([('disc',), ('connect',)], [])
 QUICK_B[(STATUSING, 'disc,connect')] = 1
 QUICK_B[(STATUSING, 'disc')] = 1
 QUICK_B[(NEGOTIATING, 'disc,connect')] = 1
+for _s in (LOGGING_IN, COMPRESSING, ENCRYPTING):
+    QUICK_B[(_s, 'disc,connect')] = 1
+QUICK_B[(LOGGING_IN, 'disc')] = 1
 PROGS['close||disc,connect'] = ([('srv_close',), ('disc',), ('connect',)], [])
 PROGS['garbage||disc,connect'] = ([('srv_garbage',), ('disc',), ('connect',)],
                                   [])
